@@ -11,11 +11,21 @@ Level: exploration.  A TLA+ specification cannot enumerate byte strings; Decode.
       (BitmapSegment::into_segment, Untrusted* -> into(), Block::hydrate_from, Segment::validate, identifier and fee
       arithmetic, Get*Segment serving ...).  The harness pushes every value that decodes Ok through the steps of its
       decoder under the same supervision; a violation names the step (decode:BitmapSegment::into_segment:panic:...).
+  (4) the sharper resource contract: a call the decoder itself refused is held to the decoder-only constant DecA (derived from
+      the decoder's own limit constants); Codec::read is bounded per frame type by the table max_msg_size (MsgLimit) and a frame
+      announcing more than 4 * MsgLimit must consume the 11 header bytes and nothing else (FrameLimitOK); every Get*Segment
+      request the real admission text of servers/src/common/adapters.rs answers must be of a height whose full segment fits
+      the response frame (ServeOK).
+  (5) the generators of large inputs: repeated groups (RepeatOps: a count field's limit worth of copies of an item, also with
+      per-item boundary values), many valid items built by the real encoders at the limits of both chain types (BigCounts),
+      hard-fork eras x header versions x edge_bits with re-packed nonces on Mainnet / Testnet / AutomatedTesting (EraOps),
+      frame lengths at the boundary of what each message type admits with the body present (FrameLenOps), JSON array lengths.
 harness/decode runs every decoder reachable from the network or the API in child processes (counting
 allocator with a 1 GiB cap, catch_unwind, parent-side watchdog and restart) on valid encodings x mutations,
-random bytes and valid-prefix + random bytes, at protocol versions 1, 2, 3, 1000, release profile.
+random bytes and valid-prefix + random bytes, at protocol versions 1, 2, 3, 1000, release profile.  The serving side of
+Get*Segment and the stratum server's share submission run as the source text of the tree under test (build.rs extraction).
 """
-import json, os, re, subprocess, shutil, collections, time
+import json, os, re, subprocess, shutil, collections, time, concurrent.futures
 import vlib
 from vlib import Report, ToolError, log
 
@@ -65,14 +75,52 @@ def signature(b, e, bounds):
         return "decode:%s:hang" % unit
     if e.get("step") and e["step"] not in STEPS_OF.get(dec, ()):
         return "decode:%s:step_not_in_catalogue:%s" % (dec, re.sub(r"\W+", "_", e["step"]))
-    bd = bounds[dec + "@" + b["ct"]]
-    if e["peak"] > bd["a"] + bd["b"] * b["len"]:
-        return "decode:%s:alloc:over_bound" % dec
+    for sv in e.get("served", []):
+        if not serve_ok(sv):
+            # (one signature per kind of segment, whatever the decoder the request came through and the height admitted)
+            return "decode:Segment::from_pmmr:serve_over_frame_limit:%s" % sv["kind"]
+    if dec == "Codec::read" and frame_refused(b, bounds) and (e["consumed"] != 11 or e["reads"] != 0):
+        return "decode:Codec::read:frame_over_limit_not_refused:type_%s" % b.get("fty")
+    if e["peak"] > call_bound(b, e, bounds):
+        if dec == "Codec::read" and b.get("fty", -1) >= 0:
+            return "decode:Codec::read:alloc:over_bound:type_%s" % b["fty"]
+        return "decode:%s:alloc:over_bound%s" % (dec, ":decoder_refused" if e["out"] == "err" else "")
     if e["consumed"] > b["len"]:
         return "decode:%s:consumed_gt_len" % dec
     if b.get("stream") and e["reads"] > e["consumed"]:
         return "decode:%s:no_progress" % dec
     return "decode:%s:rejected_by_trace_spec" % dec
+
+
+SERVE_LEAF = {"kernel": 8 + 98, "bitmap": 128, "output": 8 + 34, "rangeproof": 8 + 683}
+SERVE_LIMIT = 2 * (40000 // 21) * 708
+
+
+def serve_ok(sv):
+    """mirror of Decode.tla ServeOK, used only to NAME a violation the trace specification has found"""
+    return sv["kind"] in SERVE_LEAF and sv["h"] < 22 and (1 << sv["h"]) * SERVE_LEAF[sv["kind"]] <= SERVE_LIMIT and sv["resp"] <= SERVE_LIMIT
+
+
+def frame_refused(b, bounds):
+    t = bounds.get("frames@" + b["ct"])
+    if b.get("fty", -1) < 0 or not t:
+        return False
+    return b["flen"] > t[min(b["fty"], len(t) - 1)]["admit"]
+
+
+def call_bound(b, e, bounds):
+    """mirror of Decode.tla CallBound (naming only)"""
+    bd = bounds[b["dec"] + "@" + b["ct"]]
+    if b["dec"] == "Codec::read" and b.get("fty", -1) >= 0:
+        t = bounds["frames@" + b["ct"]]
+        row = t[min(b["fty"], len(t) - 1)]
+        if b["flen"] > row["admit"]:
+            return 64 * 1024 + bd["b"] * b["len"]
+        if e["consumed"] < b["flen"] + 22:
+            return min(b["flen"], row["admit"]) + row["a"] + 64 * 1024 + bd["b"] * b["len"]
+    if b["dec"] != "Codec::read" and e["out"] == "err":
+        return bd["da"] + bd["b"] * b["len"]
+    return bd["a"] + bd["b"] * b["len"]
 
 
 def validate_trace(path, what):
@@ -156,12 +204,12 @@ def run_single(wd, case, bounds_path):
         if hung:
             if attempt == 0:
                 continue
-            return begin, {"k": "End", "i": begin["i"], "out": "hang", "consumed": 0, "peak": 0, "reads": 0, "maxreq": 0, "note": "", "step": step}
+            return begin, {"k": "End", "i": begin["i"], "out": "hang", "consumed": 0, "peak": 0, "reads": 0, "maxreq": 0, "note": "", "step": step, "served": []}
         refused = [int(x.split()[1]) for x in se.splitlines() if x.startswith("ALLOC-REFUSED ")]
         how = "signal %d" % -p.returncode if p.returncode < 0 else "exit %d" % p.returncode
         pk = min(max(refused), 2_000_000_000) if refused else 0
         return begin, {"k": "End", "i": begin["i"], "out": "abort", "consumed": 0, "peak": pk, "reads": 0, "maxreq": pk, "note": how,
-                       "alloc_refused": str(max(refused)) if refused else "", "step": step}
+                       "alloc_refused": str(max(refused)) if refused else "", "step": step, "served": []}
     raise ToolError("replay: no result")
 
 
@@ -176,12 +224,18 @@ def gen_plans(wd, thorough, layouts):
     vlib.tlc_ok(r, "MC_Decode_gen")
     plans = r.printed("PLAN")
     b = r.printed("BOUNDS")
-    if len(plans) < 500 or len(b) != 1:
-        raise ToolError("MC_Decode_gen emitted %d plans / %d bounds tables" % (len(plans), len(b)))
+    fr = r.printed("FRAMES")
+    big = r.printed("BIG")
+    if len(plans) < 500 or len(b) != 1 or len(fr) != 1 or len(big) < 10:
+        raise ToolError("MC_Decode_gen emitted %d plans / %d bounds tables / %d frame tables / %d many-items plans" % (len(plans), len(b), len(fr), len(big)))
+    # the (family, chain type, count) plans travel in the same file
+    plans = plans + [json.dumps({"big": json.loads(x)}) for x in big]
     bounds = {}
     for x in json.loads(b[0]):
-        bounds[x["dec"] + "@auto"] = x["auto"]
-        bounds[x["dec"] + "@main"] = x["main"]
+        for ct in ("auto", "main", "test"):
+            bounds[x["dec"] + "@" + ct] = x[ct]
+    for ct, rows in json.loads(fr[0]).items():
+        bounds["frames@" + ct] = rows
     STEPS_OF.clear()
     for x in vlib.read_ndjson(layouts):
         if x["t"] == "target":
@@ -208,6 +262,23 @@ def selftest(wd, events):
     expect.append(ends[1] + 1)
     ev[ends[2]]["consumed"] = ev[ends[2] - 1]["len"] + 1
     expect.append(ends[2] + 1)
+    # an admitted segment request of a height whose full segment cannot fit the response frame
+    srv = [i for i in ends[4:] if ev[i].get("served")]
+    if srv:
+        ev[srv[0]]["served"] = [dict(ev[srv[0]]["served"][0], h=40)]
+        expect.append(srv[0] + 1)
+    # a codec call that read on after a frame header announcing more than its type admits
+    cod = [i for i in ends[4:] if ev[i - 1]["dec"] == "Codec::read" and ev[i - 1].get("fty", -1) >= 0 and i not in srv[:1]]
+    if cod:
+        ev[cod[0] - 1] = dict(ev[cod[0] - 1], fty=3, flen=65)
+        ev[cod[0]] = dict(ev[cod[0]], consumed=12, reads=0, out="err")
+        ev[cod[0] - 1]["len"] = max(ev[cod[0] - 1]["len"], 12)
+        expect.append(cod[0] + 1)
+    # a call the decoder refused, above the decoder-only constant but below the full one
+    ref = [i for i in ends[4:] if ev[i - 1]["dec"] == "PeerAddrs::read" and ev[i]["out"] == "err" and i not in srv[:1] + cod[:1]]
+    if ref:
+        ev[ref[0]]["peak"] = 100_000
+        expect.append(ref[0] + 1)
     ev[sums[0]]["n"] += 1          # one call whose outcome was neither ok nor err
     expect.append(sums[0] + 1)
     ev[sums[1]]["wp"] = 1_900_000_000
@@ -216,6 +287,7 @@ def selftest(wd, events):
     if len(ends) > 3:
         ev[ends[3]]["step"] = "Segment::no_such_step"
         expect.append(ends[3] + 1)
+    used = set(expect)
     stp = [i for i, e in enumerate(ev) if e["k"] == "Steps"]
     if stp:
         ev[stp[0]]["names"] = list(ev[stp[0]]["names"]) + ["Segment::no_such_step"]
@@ -225,7 +297,7 @@ def selftest(wd, events):
     st = [i for i in ends if ev[i - 1].get("stream")]
     if st:
         i = st[-1]
-        if i not in ends[:4]:
+        if i not in ends[:4] and i + 1 not in used:
             ev[i]["reads"] = ev[i]["consumed"] + 1
             expect.append(i + 1)
     p = os.path.join(wd, "selftest_trace.ndjson")
@@ -269,39 +341,47 @@ def run(tier, replay):
                         "replayed_outcome": e}
         return rep.finish()
 
-    # (M) the call protocol: the contract machine satisfies the per-call summary the trace spec relies on ...
-    m = vlib.tlc("mc/MC_Decode", "mc/MC_Decode", workers=2, timeout=300)
-    if m.invariant_violated:
-        print(m.out[-3000:])
-        raise ToolError("Decode.tla: %s violated by the contract machine itself" % m.invariant_violated)
-    vlib.tlc_ok(m, "MC_Decode")
-    ac = m.action_counts()
-    if m.distinct < 500 or ac.get("Begin", (0, 0))[0] == 0 or ac.get("Read", (0, 0))[0] == 0 or ac.get("PostStep", (0, 0))[0] == 0:
-        raise ToolError("MC_Decode is vacuous: %s %s" % (m.distinct, ac))
-    # ... and the monitor is not vacuous: an unconstrained decoder violates each clause
-    viol = {}
-    for cfg, inv in [("mc/MC_Decode_bad", None), ("mc/MC_Decode_bad_progress", "Progress"), ("mc/MC_Decode_bad_alloc", "AllocBounded")]:
-        r = vlib.tlc("mc/MC_Decode", cfg, workers=1, coverage=False, timeout=300)
-        if not r.invariant_violated or (inv and inv not in r.invariant_violated):
-            print(r.out[-2000:])
-            raise ToolError("%s: the unconstrained decoder did not violate the contract" % cfg)
-        viol[cfg] = r.invariant_violated[0]
+    # (M) the call protocol and (G) the plan generator are independent TLC runs: side by side (3 TLC workers in all)
+    def protocol_models():
+        # the contract machine satisfies the per-call summary the trace spec relies on ...
+        m = vlib.tlc("mc/MC_Decode", "mc/MC_Decode", workers=2, timeout=300)
+        if m.invariant_violated:
+            print(m.out[-3000:])
+            raise ToolError("Decode.tla: %s violated by the contract machine itself" % m.invariant_violated)
+        vlib.tlc_ok(m, "MC_Decode")
+        ac = m.action_counts()
+        if m.distinct < 500 or ac.get("ModelBegin", (0, 0))[0] == 0 or ac.get("Read", (0, 0))[0] == 0 or ac.get("PostStep", (0, 0))[0] == 0:
+            raise ToolError("MC_Decode is vacuous: %s %s" % (m.distinct, ac))
+        # ... and the monitor is not vacuous: an unconstrained decoder violates each clause
+        viol = {}
+        for cfg, inv in [("mc/MC_Decode_bad", None), ("mc/MC_Decode_bad_progress", "Progress"), ("mc/MC_Decode_bad_alloc", "AllocBounded"),
+                         ("mc/MC_Decode_bad_frame", "FrameLimitOK"), ("mc/MC_Decode_bad_serve", "ServeBounded")]:
+            r = vlib.tlc("mc/MC_Decode", cfg, workers=1, coverage=False, timeout=300)
+            if not r.invariant_violated or (inv and inv not in r.invariant_violated):
+                print(r.out[-2000:])
+                raise ToolError("%s: the unconstrained decoder did not violate the contract" % cfg)
+            viol[cfg] = r.invariant_violated[0]
+        return m, viol
 
     # (G) abstract layouts from the real encoders -> TLC mutation plans + the allocation bounds of the spec
     lay = os.path.join(wd, "layouts.ndjson")
     vlib.harness(["decode", "layouts", "--seed", seed, "--out", lay])
     nlay = sum(1 for x in vlib.read_ndjson(lay) if x["t"] == "layout")
-    g, plans, pp, bounds, bp = gen_plans(wd, thorough, lay)
+    with concurrent.futures.ThreadPoolExecutor(2) as ex:
+        fm = ex.submit(protocol_models)
+        fg = ex.submit(gen_plans, wd, thorough, lay)
+        m, viol = fm.result()
+        g, plans, pp, bounds, bp = fg.result()
     per_op = collections.Counter()
     for p in plans:
-        for o in p["ops"]:
+        for o in p.get("ops", []):
             per_op[o["op"]] += 1
 
     # (B) run everything in supervised children, record Begin/End
     out = os.path.join(wd, "out")
     t0 = time.time()
     p = vlib.harness(["decode", "run", "--plans", pp, "--bounds", bp, "--seed", seed, "--tier", tier, "--out", out, "--workers", 6,
-                      "--timeout-ms", TIMEOUT_MS], timeout=3000)
+                      "--chunk", 60000, "--timeout-ms", TIMEOUT_MS], timeout=3000)
     run_s = time.time() - t0
     info = json.loads(p.stdout.strip().splitlines()[-1])
     tp = os.path.join(out, "trace.ndjson")
@@ -341,6 +421,7 @@ def run(tier, replay):
     ind = [e for e in events if e["k"] == "End"]
     per_dec = collections.OrderedDict()
     honest = {}
+    refused_a = {}
     for s in sums:
         d = per_dec.setdefault(s["dec"], {"calls": 0, "ok": 0, "err": 0, "checks_ok": 0, "max_peak": 0})
         d["calls"] += s["n"]
@@ -351,6 +432,7 @@ def run(tier, replay):
         if s.get("hp", 0) >= honest.get(s["dec"], {"peak": -1})["peak"]:
             bd = bounds[s["dec"] + "@" + s["ct"]]
             honest[s["dec"]] = {"peak": s["hp"], "len": s["hl"], "bound": bd["a"] + bd["b"] * s["hl"]}
+        refused_a[s["dec"]] = bounds[s["dec"] + "@" + s["ct"]]["da"]
     never_ok = [d for d, v in per_dec.items() if v["ok"] == 0]
     if never_ok and not rep.violations:
         raise ToolError("decoders that never returned a value (their valid encodings are wrong): %s" % never_ok)
@@ -365,6 +447,10 @@ def run(tier, replay):
                 "valid encodings written by the repository's own encoders; TLC-enumerated mutation plans (Decode.tla: integer fields set to boundary/limit/huge "
                 "values, tag sweeps, truncation at every field boundary / offset, field drop / duplicate / splice from another message) applied to them; "
 "joint segment-identifier plans (height 0..255 x idx near every 2^k; idx * 2^height on the 2^62 / 2^63 / 2^64 boundaries) and segment proofs re-encoded one hash short / long / empty; "
+                "repeated groups re-encoded with a limit's worth of copies of an item (up to 3 MB), many valid items built by the real encoders at the "
+                "weight / count limits of both chain types (bodies of 40 000 inputs, 1 904 outputs, 13 333 kernels; 256 peer addresses; 512 headers; segments cut "
+                "from real MMRs), block headers at every hard-fork boundary x header version x edge_bits class with re-packed nonces (Mainnet, Testnet, "
+                "AutomatedTesting), frame lengths at / over what each message type admits with the whole body present, JSON arrays of 0..100 000 elements; "
                 "seeded random bytes of length 0..2048; a valid prefix followed by random bytes; well-formed frame headers with random or valid bodies. "
                 "A call is non-trivial when the decoder returned a value or consumed >= 16 input bytes before refusing (string decoders: input of >= 2 "
                 "characters) or ended in anything but ok|err; distinct = distinct 64-bit FNV-1a hash of (decoder, reader, version, chain type, check "
@@ -372,7 +458,7 @@ def run(tier, replay):
         "nontrivial_calls": info["nontrivial_calls"],
         "states": m.distinct, "transitions": m.generated,
         "traces_validated_against_impl": 1,
-        "samples": [{"plan": plans[len(plans) // 3]}, {"plan": plans[-1]},
+        "samples": [{"plan": plans[len(plans) // 3]}, {"plan": plans[-1]}, {"repeat_plan": next(({k: (v if not isinstance(v, list) or len(v) < 12 else v[:12]) for k, v in o.items() if k != "inner"} for p in plans for o in p.get("ops", []) if o["op"] == "repeat"), None)},
                     {"summary_event": sums[0] if sums else None},
                     {"individual_events": events[:2]}],
         "exhaustive": False,
@@ -383,6 +469,10 @@ def run(tier, replay):
         "decoder_calls": info["cases"], "calls_per_decoder": per_dec,
         "valid_encodings_run": seeds_run, "valid_encodings_accepted": seeds_ok,
         "honest_max_peak": honest,
+        "decoder_only_constant": refused_a,
+        "segment_requests_admitted": sorted({"%s@%d" % (x["kind"], x["h"]) for e in ind for x in e.get("served", [])}),
+        "many_items_plans": sum(1 for p in plans if "big" in p),
+        "frame_length_plans": per_op.get("framelen", 0), "era_plans": per_op.get("era", 0), "repeat_plans": per_op.get("repeat", 0),
         "post_decode_steps_in_catalogue": len(catalogue),
         "post_decode_steps": {k: {"run": v[0], "ok": v[1]} for k, v in sorted(steps_run.items())},
         "decoders_with_post_decode_steps": sum(1 for v in STEPS_OF.values() if v),
@@ -391,7 +481,7 @@ def run(tier, replay):
         "dropped_repeats_of_logged_classes": info["dropped_repeats"],
         "inputs_skipped_after_breaker": info.get("skipped_after_breaker", 0),
         "selftest_corruptions_refused": nself,
-        "versions": [1, 2, 3, 1000], "chain_types": ["AutomatedTesting", "Mainnet"], "harness_run_s": round(run_s, 1),
+        "versions": [1, 2, 3, 1000], "chain_types": ["AutomatedTesting", "Mainnet", "Testnet (header-carrying encodings)"], "harness_run_s": round(run_s, 1),
         "per_input_timeout_ms": TIMEOUT_MS,
         "checker_cmd": "tlc mc/MC_Decode; tlc mc/MC_Decode_gen; h_decode run; tlc trace/DecodeTrace",
     }
@@ -401,6 +491,11 @@ def run(tier, replay):
         "calls within half of their bound are validated in aggregated form (count, ok+err=count, worst peak/len pair) computed by the worker; every other call is validated individually",
         "stateless checks on segments are run against MMR sizes of real MMRs with 1..3000 leaves (a validated header's sizes), not arbitrary u64 sizes: Segment::root is linear in the MMR size",
         "post-decode steps = the conversions / accessors / stateless checks the handlers apply to a decoded value before chain state is consulted (catalogue PostSteps in Decode.tla, read off p2p/src/protocol.rs, servers/src/common/adapters.rs, chain/src/pipe.rs, the desegmenter, the pool, api/src/handlers); the serving side of Get*Segment runs Segment::from_pmmr on fixed in-memory MMRs (VecBackend), heights admitted as in the adapters",
+        "serving side of Get*Segment and stratum submit: the text of NetToChainAdapter::get_*_segment (+ the *_SEGMENT_HEIGHT_RANGE constants) and of SubmitParams / parse_params / Handler::handle_submit is copied from the tree under test at build time and compiled against harness glue (fixed in-memory MMRs; one block template, a logged-in worker, a chain stand-in that refuses process_block; log macros evaluate their arguments for error/warn/info as a node does by default)",
+        "ServeOK judges an admitted request by the capacity of its identifier height (2^height leaves of the smallest wire size, a bitmap chunk counted as 128 raw bytes) against 2 * max_block_size of Mainnet, not by the size of the fixture's answer",
+        "webhook payloads (hooks::webhook_payload) and the responses of served segment requests are built by design: their memory is not charged to the call (panics, aborts and hangs in them are)",
+        "no time budget: a super-linear path is only seen if it exceeds the 10 s watchdog at the design maximum (40 000 inputs / 13 333 kernels / 1 904 outputs per body)",
+        "streams are closed by EOF after the input: a peer that stays silent mid-frame is C19's scenario, not run here",
         "secp256k1 / blake2b / croaring internals are primitives; StreamingReader (local store only) is not a network decoder and is not exercised",
         "a hang is declared after %d ms of silence, re-confirmed once on the input alone in a fresh child" % TIMEOUT_MS,
     ]
